@@ -778,48 +778,123 @@ def run_table(t, rec: Rec):
     for kind, struct in models:
         _likelihood(t, rec, viol, ctx, database, kind, struct, rows, inds, by_id, all_ids, full1, full2, mev_members,
                     ctx_desc, cnl_ref)
+    # ---- part G: ONE GenerateModel object asked for several models in turn
+    for seq, order in (t.get('ghist') or []):
+        _generator_history(t, rec, viol, ctx, database, [tuple(o) for o in seq], order, rows, inds, by_id, all_ids, full1,
+                           full2, mev_members, ctx_desc, cnl_ref)
+
+
+def gen_witness(seq, i):
+    """coarse class of the position of model #i inside the history of one generator (kinds only)"""
+    before = sorted(set(k for k, _ in seq[:i]))
+    after = sorted(set(k for k, _ in seq[i + 1:]))
+    w = 'one-generator'
+    if before:
+        w += ':after-' + '+'.join(before)
+    if after:
+        w += ':before-' + '+'.join(after)
+    return w
+
+
+def _generator_history(t, rec, viol, ctx, database, seq, order, rows, inds, by_id, all_ids, full1, full2, mev_members,
+                       ctx_desc, cnl_ref):
+    """seq = the model-building calls made, in this order, on ONE GenerateModel object; afterwards every expression obtained
+    is evaluated (each in its own BIOGEME object, one after the other, in building order 'fwd' or in reverse 'rev') and must
+    satisfy the unchanged oracles: the statement speaks of 'the log likelihood built on the sample', whatever else the same
+    generator has been asked for before or after."""
+    from biogeme.sampling_of_alternatives import GenerateModel
+
+    J = t['J']
+    sdesc = ' -> '.join(k if s_ is None else f'{k}({s_})' for k, s_ in seq)
+    built = []
+    stage = ['GenerateModel']
+    i = 0
+    try:
+        gm = GenerateModel(ctx)
+        for i, (kind, struct) in enumerate(seq):
+            built.append(_build_model(gm, kind, struct, J, all_ids, stage))
+    except Exception as e:
+        kind = seq[i][0]
+        gw = gen_witness(seq, i)
+        rec.case(None, (table_key(t), 'G', repr(seq), i, 'raised', type(e).__name__),
+                 outcome=('ll-raised', kind, type(e).__name__, gw))
+        viol(f'likelihood-{kind}-raises-{type(e).__name__}', f'in-{stage[0]}|{gw}',
+             f'{stage[0]} raised {type(e).__name__}: {e} for model #{i + 1} of the calls [{sdesc}] made on one GenerateModel '
+             f'object, on the table generated for {ctx_desc}', observed=repr(e))
+        return
+    rec.count('generator_histories')
+    idx = list(range(len(seq)))
+    if order == 'rev':
+        idx.reverse()
+    for i in idx:
+        kind, struct = seq[i]
+        _likelihood(t, rec, viol, ctx, database, kind, struct, rows, inds, by_id, all_ids, full1, full2, mev_members,
+                    ctx_desc, cnl_ref, built=built[i], gw=gen_witness(seq, i), gtag=('G', repr(seq), order, i),
+                    gdesc=f'; model #{i + 1} of the calls [{sdesc}] made on ONE GenerateModel object (expressions evaluated '
+                          f'{"in building order" if order == "fwd" else "in reverse order"} after all calls)')
+
+
+def _build_model(gm, kind, struct, J, all_ids, stage):
+    """One model-building call on the GenerateModel object gm; stage is a 1-element list naming the step reached."""
+    sname, _, form = (struct or '').partition('/')
+    form = form or 'named'
+    nests_ref = None
+    if kind == 'logit':
+        stage[0] = 'get_logit'
+        ll = gm.get_logit()
+    elif kind == 'nested':
+        nests_ref = nests_for(J, sname)
+        stage[0] = f'building the nests ({form})'
+        nests = build_nests(form, nests_ref, all_ids)
+        stage[0] = 'get_nested_logit'
+        ll = gm.get_nested_logit(nests)
+    else:
+        stage[0] = 'get_cross_nested_logit'
+        ll = gm.get_cross_nested_logit()
+    return ll, nests_ref
 
 
 def _likelihood(t, rec, viol, ctx, database, kind, struct, rows, inds, by_id, all_ids, full1, full2, mev_members,
-                ctx_desc, cnl_ref):
+                ctx_desc, cnl_ref, built=None, gw=None, gtag=None, gdesc=''):
+    """Builds (fresh GenerateModel) - or takes over (`built` = (expression, nests_ref) from a generator with a history, part G) -
+    one model, evaluates it through BIOGEME at the 3 points and compares with the reference."""
     import biogeme.biogeme as bb
     from biogeme.parameters import Parameters
     from biogeme.sampling_of_alternatives import GenerateModel
-    from biogeme.nests import NestsForNestedLogit, OneNestForNestedLogit
-    from biogeme.expressions import Beta
 
     J, part1, k1, part2, k2, spec = t['J'], t['part1'], t['k1'], t.get('part2'), t.get('k2'), t['spec']
     nests_ref = None
     sname, _, form = (struct or '').partition('/')
     form = form or 'named'
     fw = '-' if form == 'named' else f'nests-as={form}'
-    stage = 'GenerateModel'
+    if gw:
+        fw = gw if fw == '-' else f'{fw}|{gw}'
+    gtag = tuple(gtag) if gtag else ()
+    stage = ['GenerateModel']
     try:
-        gm = GenerateModel(ctx)
-        if kind == 'logit':
-            ll = gm.get_logit()
-        elif kind == 'nested':
-            nests_ref = nests_for(J, sname)
-            stage = f'building the nests ({form})'
-            nests = build_nests(form, nests_ref, all_ids)
-            stage = 'get_nested_logit'
-            ll = gm.get_nested_logit(nests)
+        if built is None:
+            gm = GenerateModel(ctx)
+            ll, nests_ref = _build_model(gm, kind, struct, J, all_ids, stage)
         else:
-            ll = gm.get_cross_nested_logit()
-        stage = 'BIOGEME'
+            ll, nests_ref = built
+        stage[0] = 'BIOGEME'
         b = bb.BIOGEME(database, ll, parameters=Parameters(), generate_html=False, generate_pickle=False,
                        save_iterations=False, number_of_threads=1)
         names = list(b.free_beta_names)
-        stage = 'calculate_likelihood'
+        stage[0] = 'calculate_likelihood'
         vals = []
         for p in POINTS:
             vals.append(float(b.calculate_likelihood([p[n] for n in names], scaled=False)))
     except Exception as e:
         if isinstance(e, RuntimeError):
             rec.retire = True
-        rec.case(None, (table_key(t), kind, struct, 'raised', type(e).__name__), outcome=('ll-raised', kind, type(e).__name__))
+        stage = stage[0]
+        if stage in ('get_logit', 'get_cross_nested_logit'):
+            stage = 'GenerateModel'   # (keeps the finding keys of the fresh-generator case as they were)
+        rec.case(None, (table_key(t), kind, struct, 'raised', type(e).__name__) + gtag,
+                 outcome=('ll-raised', kind, type(e).__name__) + ((gw,) if gw else ()))
         viol(f'likelihood-{kind}-raises-{type(e).__name__}', f'in-{stage}' + ('' if fw == '-' else f'|{fw}'),
-             f'{stage} raised {type(e).__name__}: {e} for model {kind}/{struct} on the table generated for {ctx_desc}',
+             f'{stage} raised {type(e).__name__}: {e} for model {kind}/{struct} on the table generated for {ctx_desc}{gdesc}',
              observed=repr(e))
         return
 
@@ -861,11 +936,13 @@ def _likelihood(t, rec, viol, ctx, database, kind, struct, rows, inds, by_id, al
                 else:
                     totf += R.full_cnl_logprob(spec, p, ind, by_id, all_ids, cnl_ref)
             okf = R.close(val, totf)
-        rec.case((table_key(t), kind, struct, pi, tuple((r['c'], repr(r['a1']), repr(r.get('a2'))) for r in rows)),
-                 (table_key(t), kind, struct, pi, round(val, 9)),
-                 outcome=('ll', kind, full, ok, okf) + ((form,) if form != 'named' else ()))
+        rec.case((table_key(t), kind, struct, pi, tuple((r['c'], repr(r['a1']), repr(r.get('a2'))) for r in rows)) + gtag,
+                 (table_key(t), kind, struct, pi, round(val, 9)) + gtag,
+                 outcome=('ll', kind, full, ok, okf) + ((form,) if form != 'named' else ()) + ((gw,) if gw else ()))
         if form != 'named':
             rec.count('nest_form_comparisons')
+        if gw:
+            rec.count('generator_history_comparisons')
         rec.count('likelihood_comparisons')
         if full:
             rec.count('full_sample_equivalences')
@@ -874,13 +951,13 @@ def _likelihood(t, rec, viol, ctx, database, kind, struct, rows, inds, by_id, al
             viol(f'full-sample-likelihood-differs-from-full-model:{kind}', fw,
                  f'every stratum sampled completely, yet the {kind} ({struct}) log likelihood of the generated table is {val!r} and '
                  f'the {kind} model on the full choice set gives {totf!r} at {p}; rows={[(r["c"], r["a1"], r.get("a2")) for r in rows]}; '
-                 f'{ctx_desc}', expected=totf, observed=val)
+                 f'{ctx_desc}{gdesc}', expected=totf, observed=val)
         elif not ok:
             viol(f'sampled-likelihood-differs-from-corrected-model:{kind}',
                  ('mev' if part2 is not None else 'first-only') + ('' if fw == '-' else f'|{fw}'),
                  f'the {kind} ({struct}) log likelihood of the generated table is {val!r}; the model with utilities corrected by '
                  f'-ln(k/n) (and MEV weights n/k) on the same sample gives {tot!r} at {p} ({trivial_point}); '
-                 f'rows={[(r["c"], r["a1"], r.get("a2")) for r in rows]}; {ctx_desc}', expected=tot, observed=val)
+                 f'rows={[(r["c"], r["a1"], r.get("a2")) for r in rows]}; {ctx_desc}{gdesc}', expected=tot, observed=val)
 
 
 def _cleanup():
